@@ -45,8 +45,8 @@ M = [
   "no notification on delete"),
  ("c14_first_action_only", "C14", ["C14"], P + "__init__.py", "            else:\n                entry.append(val)\n        self.state.atCommandActions = atCommandActions", "            else:\n                pass\n        self.state.atCommandActions = atCommandActions",
   "only the first action per @-command is kept (enable lost)"),
- ("c15_hook_ignores_excluding", "C15", ["C15"], P + "__init__.py", "            if (self.isActivePrintJob and self.state.excluding):", "            if (self.isActivePrintJob):",
-  "afterPrintDone hook contributes (an empty prefix) even when no episode is open"),
+ ("c15_hook_ignores_active", "C15", ["C15", "C11"], P + "__init__.py", "            if (self.isActivePrintJob and self.state.excluding):", "            if (self.state.excluding):",
+  "afterPrintDone hook contributes after the print has ended (episode left open by a cancelled print)"),
  ("c16_midY", "C16", ["C16"], P + "GcodeHandlers.py", "            midY = (q1 + q2) / 2", "            midY = q1 if (q1 == q2) else (q1 + q2) / 2 + 0.5",
   "R-form centre wrong in a way that is not the D2 signature (pinned tests use horizontal chords)"),
  ("c17_rect_contains_disc_radius", "C17", ["C17", "C12"], P + "RectangularRegion.py", "                (otherRegion.cx + otherRegion.r <= self.x2) and", "                (otherRegion.cx <= self.x2) and",
